@@ -149,7 +149,7 @@ def canon_dev(dev, AC):
             tuple((dev.name or "").encode()), tuple((dev.sn or "").encode()))
 
 
-def run_impl(dgrams, timeout=5.0, packets=3, target="255.255.255.255", auto_connect=False):
+def run_impl(dgrams, timeout=5.0, packets=3, target="255.255.255.255", auto_connect=False, single=None):
     """dgrams: [(time_ms, host, port, data)] -> (status, sorted devices, probes [(port, data, target)], socket options)"""
     import msmart.discover as DM
     from msmart.device import AirConditioner as AC
@@ -159,7 +159,11 @@ def run_impl(dgrams, timeout=5.0, packets=3, target="255.255.255.255", auto_conn
     DM.Discover._lock = None
     status, devs = 0, []
     try:
-        devs = net.run(DM.Discover.discover(target=target, timeout=timeout, discovery_packets=packets, auto_connect=auto_connect))
+        if single is not None:       # Discover.discover_single(hostname or IP): the one device answering, or None
+            one = net.run(DM.Discover.discover_single(single, timeout=timeout, discovery_packets=packets, auto_connect=auto_connect))
+            devs = [] if one is None else [one]
+        else:
+            devs = net.run(DM.Discover.discover(target=target, timeout=timeout, discovery_packets=packets, auto_connect=auto_connect))
     except BaseException as e:  # noqa: BLE001
         status = exn_code(e)
     probes = [(addr[1], data, addr[0]) for ep in net.endpoints for data, addr, _ in ep.sent]
